@@ -68,7 +68,9 @@ def run : Runner
     | _ => none
   | "txw", [_, _, _], impl => do
     let (ext, _) ← C10.splitExt impl
-    pure { model := s!"EXT {ext} RES {ext} 1 -1 {ext} -1", prop := "spec" }
+    -- standalone wrapper (Model/TxCache.lean, Props/C16Tx.lean): hash memo = wire hash, one object; Index is -1 until
+    -- SetIndex, then the last value set; SetIndex touches nothing else; MsgTx is the wrapped message itself
+    pure { model := s!"EXT {ext} RES {ext} 1 -1 {ext} -1 7 -1 1 1 3 1", prop := "spec" }
   | _, _, _ => none
 
 end Bch.Drive.C16
